@@ -197,6 +197,25 @@ def run_item(ctx, item):
                     ctx.extra["transpose_note_out_of_domain_returned"] += 1
                 except AssertionError:
                     ctx.extra["transpose_note_out_of_domain_rejected"] += 1
+        # intervals whose quality was adjusted in place (as the harmony code does for altered degrees: bVII, #iv)
+        classes = set(P.interval_classes())
+        for step, alter, (number, q), num in itertools.product("CDEFGAB", range(-2, 3), P.interval_classes(), (-2, -1, 1, 2)):
+            iv = S.Interval(number, q)
+            try:
+                iv.change_quality(num)
+            except ValueError:
+                continue
+            if (iv.number, iv.quality) not in classes:
+                continue
+            ctx.check()
+            if iv.semitones != P.interval_semitones(iv.number, iv.quality):
+                ctx.violation("interval-semitones-stale-after-change_quality",
+                              f"Interval({number},{q}).change_quality({num}) is {iv.quality}{iv.number} but reports {iv.semitones} semitones",
+                              {"interval": f"{q}{number}", "change": num})
+            e = P.transpose(step, alter, 4, iv.number, iv.quality, "up")
+            if abs(e[1]) <= 2:
+                ctx.call(M.transpose_note, step, alter, iv)
+                ctx.case(["tn-adjusted", step, alter, number, q, num], True, cls="chord-root-adjusted-interval")
     elif kind == "gen":
         from workloads import gen_score
         rng = ctx.rng("gen", item[1])
